@@ -722,6 +722,9 @@ func Build(spec Spec) (*World, error) {
 	st.faults = append([]Fault(nil), spec.Faults...)
 	st.Lenient = spec.LenientLookup
 	st.KeysPerIssuer = spec.KeysPerIssuer
+	if spec.RequestIDPrefix != "" {
+		st.IDPrefix = spec.RequestIDPrefix
+	}
 	conf, issuer, opts := ProviderConfig(spec.IdP)
 	p, err := provider.NewProvider(st, issuer, conf, opts...)
 	if err != nil {
